@@ -976,3 +976,43 @@ Definition norm_value (v : node_value) : node_value :=
   end.
 Fixpoint norm (n : node) : node :=
   match n with Node v _ ch => Node (norm_value v) sp0 (merge_text (map norm ch)) end.
+
+(* ====================================================================== fragment of the renderer theorem *)
+(* last inline of a bare paragraph: something that prints at least one byte and no final line ending *)
+Definition solid (x : inline) : bool :=
+  match x with
+  | IStr w => safe_word w
+  | IEsc c => is_apunct c
+  | IEnt k => Nat.ltb k (List.length ent_table)
+  | ISp | ISoft | IHard _ => false
+  | _ => true
+  end.
+Definition solid_end (l : list inline) : bool := match rev l with x :: _ => solid x | [] => false end.
+
+Definition info_byte (b : byte) : bool := info_ascii b || beqb b x20.
+Definition math_info : bytes := Eval compute in B "math".
+
+(* shape needed by the renderer theorem.  as_item: the block is a list item; t: tightness (of its list
+   for an item, of the list of the enclosing item otherwise).  Not covered: tables, footnote
+   definitions; a fenced block whose info string is exactly math (comrak prints an extra
+   data-math-style attribute for it whatever the options: known finding, see the check). *)
+Fixpoint wf_b (as_item t : bool) (b : block) : bool :=
+  match b with
+  | BItem _ bs => as_item && forallb (wf_b false t) bs
+  | BPara l => negb as_item && (negb t || solid_end l)
+  | BQuote bs => negb as_item && forallb (wf_b false false) bs
+  | BBullet tg _ items => negb as_item && forallb (wf_b true tg) items
+  | BOrdered tg _ _ items => negb as_item && forallb (wf_b true tg) items
+  | BHtml k => negb as_item && Nat.ltb k (List.length html_shapes)
+  | BFence _ _ info _ => negb as_item && forallb info_byte info && negb (bytes_eqb info math_info)
+  | BTable _ _ _ | BFn _ _ => false
+  | _ => negb as_item
+  end.
+
+
+(* the fragment of the renderer theorem: no tables, no footnotes (definitions or references), no
+   fenced block with the info string math; bare paragraphs end with a solid inline *)
+Definition wf_doc (d : doc) : bool :=
+  forallb (wf_b false false) (body d) &&
+  match flat_map fr_block (body d) with [] => true | _ => false end.
+
